@@ -1,16 +1,17 @@
-\* Trace validation of recorded import runs against PycCache.tla with the disciplines of
-\* beartype 0.23.0 (one marker for all configurations, unlocked patch of the global).
-\* The driver generates a variant of this file when it detects other disciplines
-\* (MarkerMode "confkey", PatchMode "private") in the implementation under test.
+\* Trace validation of recorded import runs against PycCache.tla.  The driver generates this
+\* file anew for every run (MarkerClasses = the marker function OBSERVED on the tree under test,
+\* PatchMode as detected); this copy holds the values of beartype with the configuration-
+\* dependent marker (every distinct AST key has its own marker) and the unlocked patch.
 SPECIFICATION TSpec
 CONSTANTS
   Modules = {"a", "b", "pa", "pb", "f1", "f2", "f3", "f4", "f5", "f6", "f7", "f8"}
   Foreign = {"f1", "f2", "f3", "f4", "f5", "f6", "f7", "f8"}
-  Confs = {"default", "vt", "nopep", "ffirst", "flast", "tfirst"}
+  Confs = {"default", "vt", "nopep", "ffirst", "flast", "tfirst", "tlbdh"}
   Threads = {1, 2}
   MaxSrc = 1000
   MaxRuns = 1000000
-  MarkerMode = "v0230"
+  MarkerMode = "observed"
+  MarkerClasses = {{"default", "vt"}, {"nopep"}, {"ffirst"}, {"flast"}, {"tfirst"}, {"tlbdh"}}
   PatchMode = "unlocked"
   Nest = TRUE
 CONSTRAINT Reached
